@@ -4,7 +4,8 @@
     which func was called, in call order.  [find_root_h] additionally tags how a number was reached.
     [ROps] is the real-number instance; f is an ARBITRARY function R -> R unless continuity is stated. *)
 From Coq Require Import Reals ZArith List Bool.
-From LP Require Import Num NumR OrdLaws C02_Model C02_Proofs C02_Proofs2 C02_Proofs3 C02_Proofs4 C02_Proofs5.
+From LP Require Import Num NumR OrdLaws C02_Model C02_Proofs C02_Proofs2 C02_Proofs3 C02_Proofs4 C02_Proofs5 C02_Proofs6
+  Gen_C02_Formulas C02_GenTie.
 Import ListNotations.
 Local Open Scope R_scope.
 
@@ -376,3 +377,55 @@ Theorem C02_history_all_answers_correct (reqs : list ((R -> R) * R * R * R)) (k 
 Proof. exact (seq_all_answers_correct reqs k o). Qed.
 Print Assumptions C02_history_all_answers_correct.
 (** hypotheses satisfiable: [seq_all_answers_example] (a history of two requests has a second answer). *)
+
+(** "all accuracies": SHARPENING THE ACCURACY ONLY CONTINUES THE SAME RUN, on EVERY instance of the number interface (no law
+    of arithmetic or order: IEEE doubles with rounding included), by induction over the iteration budget.  If every width
+    that passes the stopping test fabs(x2 - x1) < acc' also passes it with acc (acc' is at most acc as the test sees it), then
+    the request with acc' is answered exactly as with acc (same outcome, same way reached, same evaluations), or the run with
+    acc returned through the width test and the run with acc' makes the very same evaluations in the same order and then at
+    least one more: the answer at a coarser accuracy is an intermediate iterate of the answer at a sharper one, never the
+    result of a different iteration. *)
+Theorem C02_sharper_accuracy_continues {T : Type} (Ops : NumOps T) (f : T -> T) (a b acc acc' : T) :
+  (forall w, nltb Ops w acc' = true -> nltb Ops w acc = true) ->
+  find_root_h Ops f a b acc' = find_root_h Ops f a b acc \/
+  (exists x tr2, fst (find_root_h Ops f a b acc) = Ok (x, HBracket) /\ tr2 <> [] /\
+     snd (find_root_h Ops f a b acc') = snd (find_root_h Ops f a b acc) ++ tr2).
+Proof. exact (fun H => sharper_accuracy_continues Ops f acc acc' H a b). Qed.
+Print Assumptions C02_sharper_accuracy_continues.
+
+(** ... on every ORDERED instance (doubles without NaN accuracies) the premise is acc' <= acc. *)
+Theorem C02_sharper_accuracy_continues_ordered {T : Type} (Ops : NumOps T) (OL : OrdLaws Ops) (f : T -> T) (a b acc acc' : T) :
+  nleb Ops acc' acc = true ->
+  find_root_h Ops f a b acc' = find_root_h Ops f a b acc \/
+  (exists x tr2, fst (find_root_h Ops f a b acc) = Ok (x, HBracket) /\ tr2 <> [] /\
+     snd (find_root_h Ops f a b acc') = snd (find_root_h Ops f a b acc) ++ tr2).
+Proof. exact (sharper_accuracy_continues_ordered Ops OL f a b acc acc'). Qed.
+Print Assumptions C02_sharper_accuracy_continues_ordered.
+(** hypotheses satisfiable: [sharper_accuracy_example] (the reals are an ordered instance and 1 <= 3). *)
+
+(** The origin of x is immaterial: the request moved by c ([xt c f] = fun x => f (x - c), ends a + c and b + c, the same
+    accuracy) is answered by the answer + c through every evaluation abscissa + c ([tout c] adds c to the returned number
+    and keeps the way it was reached; exits stay exits).  With C02_x_scale_covariant: Find_Root commutes with every
+    increasing affine change of the variable. *)
+Theorem C02_x_shift_covariant (f : R -> R) (c a b acc : R) :
+  find_root_h ROps (xt c f) (a + c) (b + c) acc =
+  (tout c (fst (find_root_h ROps f a b acc)), map (fun x => x + c) (snd (find_root_h ROps f a b acc))).
+Proof. exact (x_shift_covariant f c a b acc). Qed.
+Print Assumptions C02_x_shift_covariant.
+(** use: [x_shift_example] (x - 1 on [0,3] moved by 10 is answered 11). *)
+
+(** T-TIE: Sign(double) and Sign(double,double) of src/Special_Functions.cpp, translated from clang's AST on every run
+    (Gen_C02_Formulas.v: [g_Sign], [g_Sign2]), are the terms [sign1] / [sign2] with which the model of Find_Root is written
+    (end test, Ridder's formula, the three re-bracketing tests), on every instance of the number interface in which the source
+    literals 0.0 and 1.0 are the constants 0 and 1 ([Lit01]; the reals: C02_literals_reals). *)
+Theorem C02_generated_Sign_is_model {T : Type} (Ops : NumOps T) : Lit01 Ops -> forall x, g_Sign Ops x = sign1 Ops x.
+Proof. exact (gen_Sign_is_model Ops). Qed.
+Print Assumptions C02_generated_Sign_is_model.
+
+Theorem C02_generated_Sign2_is_model {T : Type} (Ops : NumOps T) : Lit01 Ops -> forall x y, g_Sign2 Ops x y = sign2 Ops x y.
+Proof. exact (gen_Sign2_is_model Ops). Qed.
+Print Assumptions C02_generated_Sign2_is_model.
+
+Theorem C02_literals_reals : Lit01 ROps.
+Proof. exact ROps_Lit01. Qed.
+Print Assumptions C02_literals_reals.
